@@ -11,3 +11,13 @@ Theorem C02_auto_float_key_refuted : exists (n : nat) (k : key val),
   S_contains val_eqb (map VInt (iota n)) k = true /\ S_lookup val_eqb (map VInt (iota n)) k = Ok 1.
 Proof. exists 3%nat, (vkey (VFlt 1 1)). vm_compute. auto. Qed.
 Print Assumptions C02_auto_float_key_refuted.
+
+(* a consequence: on an auto-integer IndexGO [0,1], extend([5, 1.0]) passes the validation of extend
+   (1.0 is not "contained"), appends 5, and only then refuses 1.0: the rejected extend has changed the index *)
+Theorem C02_auto_float_key_extend_refuted : exists ops : list (op val),
+  let r := M_go_run val_eqb vto_Z (M_go_auto VInt 2) ops in
+  go_dom val_eqb vto_Z (M_go_auto VInt 2) ops = false /\
+  snd r = [Err "KeyError"] /\ g_mut (fst r) = [VInt 0; VInt 1; VInt 5] /\
+  S_go_run val_eqb (map VInt (iota 2)) ops = ([VInt 0; VInt 1], [false]).
+Proof. exists [OpExtend [vkey (VInt 5); vkey (VFlt 1 1)]]. vm_compute. auto. Qed.
+Print Assumptions C02_auto_float_key_extend_refuted.
